@@ -31,6 +31,11 @@ STRENGTHENED = {
     "C08e": "minerals now also reach the update restored from an NPZ checkpoint (before the first or after the first update; enumeration fields come back as numpy integers) or with plain-integer phase/fabric/regime ordinals, and the restored run must equal the in-memory run",
     "C11e": "one case in four of `tensor_maps` and `rotation_law` holds whole numbers and is handed over with integer dtype (Voigt matrix and 4th-order tensor alike); C10, C12 and C13 got the same variant (whole-GPa stiffness tables, whole-number shears)",
     "C14e": "new oracle `permutation_large`: 1000..2000 grains (sizes around 2^19, 1e6 and 2^20 pairs planted) with a texture that is inhomogeneous along the grain list (random part followed by a tight cluster), reversed and shuffled; the harness no longer spends the evaluation of shards 2..N on Hypothesis' all-minimal first example, which is the same in every shard",
+    "C01f": "new oracle `history_valid_continued` (a run continued after a very large strain: starting deformation gradient with principal stretches up to 1e8, dislocation regimes, T >= 1); the general history generator also draws such gradients now",
+    "C03f": "new volume family `vertex` (one grain holds all the volume); volume vectors whose entries are whole numbers reach `core.derivatives` as the integer arrays such literals are",
+    "C05f": "the harness records the case in flight; when a shard process is killed by a signal the parent replays that case in a fresh process, and a second death by signal is reported as a VIOLATION with that input (anything else stays exit 2) - `tools/selftest.sh` covers both outcomes",
+    "C07f": "`params['number_of_grains']` is now smaller than the mineral's grain count for n = 2 mod 4 (1: a dictionary made for a coarser aggregate), larger for n = 0 mod 4, equal for odd n",
+    "C08f": "`order_independence` additionally hands [olivine, enstatite, identically built olivine twin] to one `update_all` call: both twins must be updated at every step and stay bit-identical, and the others must not notice",
     "C20": "new differential part of `point_density`: raw estimates are rebuilt from the documented counting grid with pydrex's kernel functions, normalised, clipped and compared (1e-9)",
 }
 
@@ -43,7 +48,7 @@ def seeded_table():
         first = m.get("first_verdict")
         final = "caught" if any(v["caught"] for v in checks.values()) else "MISSED"
         allc = all(v["caught"] for v in checks.values()) if checks else False
-        rows.append(f"| {name} | {m.get('breaks_property','')} | {m.get('summary','').replace('|','/').replace(chr(10),' ')[:150]} | {m.get('needs','').replace('|','/').replace(chr(10),' ')[:120]} | {first or ('caught' if allc else 'see meta.json')} | {final} | {STRENGTHENED.get(name, '-') if (first or '').startswith('missed') or name == 'C14b' else '-'} |")
+        rows.append(f"| {name} | {m.get('breaks_property','')} | {m.get('summary','').replace('|','/').replace(chr(10),' ')[:150]} | {m.get('needs','').replace('|','/').replace(chr(10),' ')[:120]} | {first or ('caught' if allc else 'see meta.json')} | {final} | {STRENGTHENED.get(name, '-') if (first or '').startswith('missed') or name in ('C14b', 'C05f') else '-'} |")
     return "\n".join(rows)
 
 def main():
